@@ -33,6 +33,10 @@ func TestSurvey(t *testing.T) {
 	for i := 0; i < n; i++ {
 		c := rapid.Custom(gen).Example(seed*1000000 + i)
 		total++
+		if os.Getenv("DUMP") != "" {
+			fmt.Printf("#### %d\n%s", i, c.Text)
+			continue
+		}
 		o := &lib.Obs{}
 		err := run(c, o)
 		if err != nil {
